@@ -276,6 +276,16 @@ def r11_5(run):
                    'recognised as lists after a change event' % (sorted(forms), sorted(rforms)))
 
 
+def r11_7(run):
+    sa = CU(run, '__setattr__')
+    g = cfg_of(sa)
+    for t in g.live:
+        if t.kind == 'test' and '_ListWrapper' in src(t.ast):
+            run.ob('R11.7', sa, t.ast, 'every assigned list is wrapped for its own option', False, slot='wrap-every-list',
+                   message='__setattr__ skips wrapping when the value is already a _ListWrapper: list-valued options then share one tracked list bound to the wrong option name')
+    run.ob('R11.7', sa, sa.node, 'wrap tests examined', True)
+
+
 def r11_6(run):
     us = [CU(run, '_do_setup'), CU(run, '_get_defaults'), run.idx.find_method(TC(run), 'from_protocol')]
     k = dropped_deferreds(run, 'R11.6', [u for u in us if u is not None], 'the configuration bootstrap')
@@ -283,6 +293,7 @@ def r11_6(run):
 
 
 RULES = [
+    ('R11.7', 'every assigned list value gets its own tracked wrapper (no aliasing between options)', r11_7),
     ('R11.6', 'no dropped Deferred in the configuration bootstrap (every GETCONF is awaited before the view is declared ready)', r11_6),
     ('R11.5', 'sibling agreement: default lookup + parse on the unset leg in _do_setup and _conf_changed; key-form agreement of list_parsers writers/reader', r11_5),
     ('R11.1', 'store-site typing: every value stored under a Tor option key that may be list-typed is a _ListWrapper (or excluded by a dominating test / copied from the wrapped pending set)', r11_1),
